@@ -410,10 +410,34 @@ def run(ctx, chk):
         chk.ok('C20.4', 'same-decoder', sample={'decoder::decode callers': callers})
     else:
         chk.fail('C20.4', 'same-decoder', 'disassemble does not use decoder::decode', dfile, None)
+    # ---- rule 5: the decoder reads only the bytes of the instruction it reports
+    chk.rule('C20.5', 'D', 'the decoder reads only the bytes it claims: for each of the 511 encodings, decode() on a slice that '
+             'ends exactly at the end of the instruction completes and reports that length (a sequence of complete '
+             'instructions is then disassembled without running off its end)', floor=500)
+    sp = ctx.opspec('default')
+    for enc in osp.all_encodings():
+        name = osp.enc_name(enc)
+        try:
+            op, ln, cy = sp.decoded(enc)
+        except absint.Abort as e:
+            chk.fail('C20.5', name, 'decode does not give one result on a 3-byte window: %s' % e.why, 'src/decoder/mod.rs', None)
+            continue
+        if ln is None or not 1 <= ln <= 3:
+            chk.fail('C20.5', name, 'decode reports length %s' % ln, 'src/decoder/mod.rs', None)
+            continue
+        rs = sp.decode(enc, ln)
+        bad = [r for r in rs if r.status != 'ok']
+        lens = set(r.ret[2][1] for r in rs if r.status == 'ok' and r.ret is not None)
+        if bad:
+            chk.fail('C20.5', name, 'decode of %s reads past the %d byte(s) of the instruction: it does not complete on a slice '
+                     'that ends at the instruction boundary (%s)' % (name, ln, bad[0].status), 'src/decoder/mod.rs', None)
+        elif lens != {C(64, ln)}:
+            chk.fail('C20.5', name, 'decode reports a different length on the exact slice', 'src/decoder/mod.rs', None)
+        else:
+            chk.ok('C20.5', name, nontrivial=ln > 1)
     chk.assumptions += ['std parsing functions (split_whitespace, trim, to_lowercase, parse, from_str_radix) are total and '
                         'behave per their contracts; leniencies inherited from std (an accepted leading "+") are not errors here',
-                        'disassembly precondition from the property: the byte sequence ends on an instruction boundary '
-                        '(operand reads inside decode are covered by that precondition)']
+                        'disassembly precondition from the property: the byte sequence ends on an instruction boundary']
     return chk.finish('Panic reachability over the resolved call graph of the three parsing functions, path enumeration of '
                       'parse_address / normalize_command / parse_command with std string functions modelled as pure symbols '
                       '(def-use of their results), and one symbolic iteration of the disassembly loop for the tiling '
